@@ -350,6 +350,16 @@ func (m *monitor) build(idx int, s *TxSpec, nonceAhead map[common.Address]uint64
 		for _, t := range s.Targets {
 			ta := m.resolve(t.To)
 			m.addUni(ta, t.To)
+			if strings.HasPrefix(t.Amt, "@fill:") {
+				// raise the target's balance to exactly the given number of wei
+				want, cur := bigDec(t.Amt[6:]), m.adb.GetBalance(ta)
+				amt := "0"
+				if cur.Cmp(want) < 0 {
+					amt = weiToTokens(new(big.Int).Sub(want, cur))
+				}
+				targets[hexAddr(ta)] = amt
+				continue
+			}
 			targets[hexAddr(ta)] = m.resolveAmt(src, t.Amt)
 		}
 		b.tx = env.TransferTx(m.srcString(s), targets, nonce, tag)
@@ -804,6 +814,16 @@ func (m *monitor) runBlock(lo, hi int) {
 			out = "no-receipt"
 		case rc.Status == types.ReceiptStatusSuccessful:
 			out = "ok"
+		}
+		if strings.HasPrefix(b.spec.Src, "dust:") {
+			m.r.Count("dust_sender_txs", 1)
+			src := m.resolve(b.spec.Src)
+			if fa := m.named["fee"]; post.bal[fa].Cmp(pre.bal[fa]) > 0 {
+				m.r.Count("dust_sender_fee_paid", 1)
+			} else {
+				m.r.Count("dust_sender_fee_refused", 1)
+			}
+			m.r.Distinct("dust_balance", []byte(b.spec.Kind), pre.bal[src].Bytes())
 		}
 		k := b.spec.Kind
 		if b.spec.Via == "eth" {
